@@ -2,7 +2,7 @@
    fields (byte strings in hex) next to the bytes the real encoders produced; the model must produce the same bytes
    and decode them back to the same value. *)
 From Coq Require Import List Arith NArith ZArith Bool String Ascii.
-From Verif Require Import WalletFile Msg Codec Msgpack.
+From Verif Require Import WalletFile Msg Codec Msgpack ProtoWire.
 Import ListNotations.
 
 Definition hexv (a : ascii) : N := let n := N_of_ascii a in if (n <? 58)%N then (n - 48)%N else (n - 87)%N.
@@ -43,14 +43,45 @@ Definition mvtx_eqb (a b : mvtx) : bool :=
   mtrx_eqb (mv_trx a) (mv_trx b) && bytes_eqb (mv_hash a) (mv_hash b) && bytes_eqb (mv_left a) (mv_left b) &&
   bytes_eqb (mv_right a) (mv_right b) && Z.eqb (mv_weight a) (mv_weight b).
 
-(* a case: the vertex, the bytes of Vertex.encode, the bytes of Transaction.Encode *)
-Definition vcase_ok (c : mvtx * list seg * list seg) : bool :=
-  let '(v, vb, tb) := c in
+(* the protobuf wire form: the model encoder against proto.Marshal byte for byte; the model decoder against the value on the real
+   bytes, on the same records in reverse order followed by an unknown field, and - verdict only - on every proper prefix *)
+Definition opt_eqb {A} (e : A -> A -> bool) (a b : option A) : bool :=
+  match a, b with Some x, Some y => e x y | None, None => true | _, _ => false end.
+Definition pspice_eqb (a b : pspice) : bool := N.eqb (ps_cur a) (ps_cur b) && N.eqb (ps_sup a) (ps_sup b).
+Definition ptrx_eqb (a b : ptrx) : bool :=
+  bytes_eqb (pt_subject a) (pt_subject b) && bytes_eqb (pt_data a) (pt_data b) && bytes_eqb (pt_hash a) (pt_hash b) &&
+  N.eqb (pt_created a) (pt_created b) && bytes_eqb (pt_receiver a) (pt_receiver b) && bytes_eqb (pt_issuer a) (pt_issuer b) &&
+  bytes_eqb (pt_rsig a) (pt_rsig b) && bytes_eqb (pt_isig a) (pt_isig b) && opt_eqb pspice_eqb (pt_spice a) (pt_spice b).
+Definition pvtx_eqb (a b : pvtx) : bool :=
+  bytes_eqb (pv_signer a) (pv_signer b) && N.eqb (pv_created a) (pv_created b) && bytes_eqb (pv_sig a) (pv_sig b) &&
+  opt_eqb ptrx_eqb (pv_trx a) (pv_trx b) && bytes_eqb (pv_hash a) (pv_hash b) && bytes_eqb (pv_left a) (pv_left b) &&
+  bytes_eqb (pv_right a) (pv_right b) && N.eqb (pv_weight a) (pv_weight b).
+Fixpoint mask_ok (raw : bytes) (i : nat) (m : string) : bool :=
+  match m with
+  | EmptyString => true
+  | String c r =>
+    Bool.eqb (match dec_pvtx (firstn i raw) with Some _ => true | None => false end) (Ascii.eqb c "1"%char) && mask_ok raw (S i) r
+  end.
+Definition reads_as (p : pvtx) (b : bytes) : bool := match dec_pvtx b with Some q => pvtx_eqb q p | None => false end.
+Definition pcase_ok (v : mvtx) (pb : option (list seg * list seg * string)) : bool :=
+  match pb with
+  | None => true
+  | Some (raw, alt, mask) =>
+    let r := sb raw in let p := to_pvtx v in
+    bytes_eqb (enc_pvtx p) r && reads_as p r && reads_as p (sb alt) && mask_ok r 0 mask
+  end.
+
+Definition mpcase : Type := mvtx * list seg * list seg * option (list seg * list seg * string).
+(* a case: the vertex, the bytes of Vertex.encode, the bytes of Transaction.Encode, and the protobuf part *)
+Definition vcase_ok (c : mpcase) : bool :=
+  let '(v, vb, tb, pb) := c in
   let rv := sb vb in let rt := sb tb in
   bytes_eqb (enc_vtx v) rv && bytes_eqb (enc_trx (mv_trx v)) rt &&
   match dec_vtx rv with Some (w, []) => mvtx_eqb w v | _ => false end &&
-  match dec_trx rt with Some (w, []) => mtrx_eqb w (mv_trx v) | _ => false end.
-Definition bad_msgpack (base : nat) (cases : list (mvtx * list seg * list seg)) : list nat :=
+  match dec_trx rt with Some (w, []) => mtrx_eqb w (mv_trx v) | _ => false end &&
+  pcase_ok v pb.
+Definition bad_msgpack (base : nat) (cases : list mpcase) : list nat :=
   map fst (filter (fun p => negb (vcase_ok (snd p))) (combine (seq base (List.length cases)) cases)).
-(* a constructor with typed arguments, so that the generated file needs no scope delimiters *)
-Definition MC (v : mvtx) (vb tb : list seg) : mvtx * list seg * list seg := (v, vb, tb).
+(* constructors with typed arguments, so that the generated file needs no scope delimiters *)
+Definition MC (v : mvtx) (vb tb : list seg) : mpcase := (v, vb, tb, None).
+Definition MCP (v : mvtx) (vb tb raw alt : list seg) (mask : string) : mpcase := (v, vb, tb, Some (raw, alt, mask)).
